@@ -300,6 +300,19 @@ def rule_l6(ck, prog, S, model):
                         and f.where.get(nn.id) and f.where[nn.id][0].id in body]
                 if decs and not incs:
                     prog_nodes |= {d.id for d in decs}
+            # counting up: `i < N` (N a constant / sizeof expression) with i only incremented inside the loop
+            if cond is not None and cond.k == "BinaryOperator" and cond.get("op") in ("<", "<=", "!=") and \
+                    C.const_of(cond.child(1)) is not None:
+                v = cond.child(0).strip_all_casts().get("path")
+                lhs = cond.child(0).strip_all_casts()
+                if v and lhs.k == "DeclRefExpr" and lhs["decl"]["kind"] == "local":
+                    inside = [nn for nn, t in C.stores(f) if t.get("path") == v and f.where.get(nn.id) and f.where[nn.id][0].id in body]
+                    incs = [nn for nn in inside if (nn.k == "UnaryOperator" and nn.get("op") == "++") or
+                            (nn.get("op") == "+=" and C.const_of(nn.child(1)) == 1)]
+                    addr = any(x.k == "UnaryOperator" and x.get("op") == "&" and x.child(0).strip_all_casts().get("path") == v
+                               for x in f.nodes.values())
+                    if incs and len(incs) == len(inside) and not addr:
+                        prog_nodes |= {d.id for d in incs}
             # every cycle through the head passes a progress node
             starts = [e.dst for e in pg.out[(head.id, 0)]
                       if not (e.kind == "elem" and e.node.id in prog_nodes) and e.dst[0] in body]
